@@ -8,9 +8,12 @@ ASSUMED_MODELS).  What is verified here, on the real source re-read on every run
                            parse_email_addresses, get_body_content, parse_email_message,
                            read_mbox_format_mail
   eml_email_extractor.py   _read_eml_format, read_eml_format_mail
-  msg_email_extractor.py   _parse_single_recipient, read_msg_format_mail (field mapping)
+  msg_email_extractor.py   _parse_single_recipient, _parse_multi_recipients (str and list form), _looks_like_html,
+                           _read_ole_string (round 7),
+                           read_msg_format_mail (field mapping)
   data_types.py            EmailContent.iterate_supported_attachments
-  (+ ground obligations on MBOX_FROM_PATTERN and on the frame of populate_from_path)
+  mime_types.py            is_supported_mime_type (round 7: verified here too, same contract as the C07 pack)
+  (+ ground obligations on MBOX_FROM_PATTERN, on _HTML_HINT_RE (round 7) and on the frame of populate_from_path)
 
 Top-level postconditions are written from the property statement; see contracts/c16_exec.py for
 the spec functions (piece, CNT_SP, dhv_term, FIRST_P/FIRST_H, ...).
@@ -1037,8 +1040,11 @@ def router_contracts(reg):
     out = []
     for c in C07.contracts(reg):
         if c.target.startswith(C07.MIME):
-            c.assumed = True
-            c.note = "verified by the C07 pack"
+            # round 7: VERIFIED here as well (it is on C16's anchor list: `is_supported_mime_type` decides the flag every attachment
+            # carries).  The contract is the one C07 owns (returns == "the type is a key of MIME_TYPE_MAPPING", None/"" -> False);
+            # call sites of this pack keep using exactly this contract, so nothing weaker is assumed anywhere.
+            c.assumed = False
+            c.note = "verified on the real body by this pack too (round 7; same contract as the C07 pack)"
             out.append(c)
 
     def path_t(c):
@@ -1173,13 +1179,335 @@ def psr_contract():
         return z3.Implies(M.RS_NONE(P, raw), z3.And(z3.Implies(is_addr, z3.And(nm == M.EMPTY, ad == raw)),
                                                     z3.Implies(z3.Not(is_addr), z3.And(nm == raw, ad == M.EMPTY))))
 
+    def result_maker(ex, st, ctx):
+        # call-site view (round 7, for the verified _parse_multi_recipients): None or an EmailAddress whose fields are NAMED by functions
+        # of the argument; the ensures clauses above then say what they are
+        raw = ctx.args["raw"].t
+        obj = ex.new_obj(st, "EmailAddress", {"name": VStr(M.PSR_NAME(raw)), "address": VStr(M.PSR_ADDR(raw))})
+        return [(M.PSR_NONE(raw), NONE), (z3.Not(M.PSR_NONE(raw)), obj)]
+
     return FnContract(
         target=f"{MSG}::_parse_single_recipient",
         params=[("raw", p_str())],
+        result_maker=result_maker,
         ensures=[("None-iff-blank", e_none), ("angle-form:-address-inside-brackets,-name-before", e_angle),
                  ("bare-address-or-name-only", e_bare)],
         raises=[],
         note="'Name <addr>' | '<addr>' | 'addr' | 'Name' | blank -> None (regex search assumed total, uninterpreted)",
+    )
+
+
+def ros_contract():
+    """(round 7) _read_ole_string (names and MIME tags of .msg attachments): never raises; "" when the stream cannot be opened / read,
+    otherwise the stream's bytes decoded as UTF-16-LE (undecodable units dropped) without trailing NULs."""
+    def want(c):
+        stream = M.OLE_STREAM(c.args["ole"].t, c.args["storage"].t, c.args["stream_name"].t)
+        return M.RSTRIP_CHARS(M.DEC_IGN(M.OLE_DATA(stream), z3.StringVal("utf-16-le")), z3.StringVal("\x00"))
+
+    def e_text(c):
+        r = c.result
+        if not isinstance(r, VStr):
+            raise M.ShapeUnknown("result is not a str")
+        return z3.Or(r.t == M.EMPTY, r.t == want(c))
+
+    def result_maker(ex, st, ctx):
+        return VStr(z3.String(fresh_name("ole_string")))
+
+    return FnContract(
+        target=f"{MSG}::_read_ole_string",
+        params=[("ole", p_ext("OleFile")), ("storage", p_str()), ("stream_name", p_str())],
+        ensures=[("empty-or-the-UTF-16-LE-text-of-the-stream-without-trailing-NULs", e_text)],
+        raises=[],
+        result_maker=result_maker,
+        note="total; '' | rstrip_NUL(decode_utf16le_ignore(bytes of the stream [storage, name])) (olefile openstream / read: assumed, may raise)",
+    )
+
+
+RCPT_SEP = "[;,]"
+PMR = "_parse_multi_recipients"
+
+
+def pmr_shape_ok(repo=None):
+    """The contract of _parse_multi_recipients is verified on bodies written with statement loops.  A body written with comprehensions /
+    generator expressions (elements that may be None, nested generators: harmless/C16_13) is outside what the executor runs; such a
+    tree is NOT verified for this function -- it is summarised at its call sites exactly as before round 7 and the bounded native table
+    (`_parse_multi_recipients/bounded#native-table`, always run) is the only check of its body.  Never counted as proved."""
+    m = loader.module(MSG, repo) if repo is not None else loader.module(MSG)
+    fn = m.functions.get(PMR)
+    if fn is None:
+        return False
+    return not any(isinstance(n, (ast.ListComp, ast.GeneratorExp, ast.SetComp, ast.DictComp, ast.Lambda)) for n in ast.walk(fn))
+
+
+def post_report(c, rep):
+    """The obligations of _parse_multi_recipients exist only while its body has the loop form (pmr_shape_ok): they are checked and
+    counted like any other but not locked (`volatile`); the locked guard of the family is `bounded#native-table` + `coverage#...`."""
+    try:
+        if c.target.endswith("::" + PMR):
+            for o in rep.obligations:
+                o["volatile"] = True
+    except Exception:  # noqa
+        pass
+
+
+def pmr_coverage_obligations(repo, tier):
+    """Locked guard of the _parse_multi_recipients family: (1) BOUNDED stand-in, always run: the real function on the native table of
+    replay/C16.py::check_multi_recipients (strings and lists); (2) which treatment this tree gets (verified / summarised)."""
+    import json
+    import os
+    import subprocess
+    root = os.path.dirname(os.path.dirname(os.path.abspath(__file__)))
+    oid = f"C16/msg_email_extractor.py::{PMR}/bounded#native-table"
+    m = loader.module(MSG, repo)
+    if m.functions.get(PMR) is None:
+        return {"obligations": [ground_obligation(oid, False, "function not found", MSG, kind="bounded", definite=False)], "functions": []}
+    req = {"property": "C16", "obligation": oid, "repo": repo, "function_check_only": "check_multi_recipients"}
+    p = subprocess.run(["/venv/bin/python", os.path.join(root, "replay", "run.py")], input=json.dumps(req), capture_output=True, text=True,
+                       timeout=300, env=dict(os.environ, VERIF_REPO=repo))
+    lines = [l for l in p.stdout.splitlines() if l.startswith("{")]
+    res = json.loads(lines[-1]) if lines else None
+    if res is None:
+        o = ground_obligation(oid, False, f"native table did not run: {p.stderr[-200:]}", MSG, kind="bounded", backend="native", definite=False)
+    else:
+        bad = bool(res.get("reproduced"))
+        o = ground_obligation(oid, not bad, json.dumps({k: res.get(k) for k in ("inputs", "expected", "observed")}, default=repr)[:400] if bad else
+                              "12 inputs (8 strings, 4 lists)", MSG, kind="bounded", backend="native")
+        if bad:
+            o["witness"] = res.get("inputs")       # (the check replays it once more itself and writes the replay record)
+    o["bounded"] = True
+    o["bound"] = "the 12 inputs of replay/C16.py::check_multi_recipients"
+    if o["status"] == "proved":
+        o["status"] = "bounded-ok"
+    verified = pmr_shape_ok(repo)
+    o2 = ground_obligation(f"C16/msg_email_extractor.py::{PMR}/coverage#verified-when-written-with-loops-else-summarised", True,
+                           "verified under its contract in this run" if verified else
+                           "body written with comprehensions: NOT verified on this tree (summarised at call sites, native table only)", MSG,
+                           kind="bounded", backend="dataflow")
+    o2["bounded"] = True
+    o2["status"] = "bounded-ok"
+    return {"obligations": [o, o2], "functions": []}
+
+
+def pmr_contract():
+    """(round 7) _parse_multi_recipients, both forms of its argument (the parameter is created as a case split str | list[str]).
+    STRING: the pieces of re.split("[;,]", raw), each parsed by _parse_single_recipient (verified contract), those that give a name
+    or an address, in order -- loop invariant with the counting function CNT_PSR (ground instances).
+    LIST: the concatenation, in item order, of the specified results PMR(item) of the items (the recursive calls go through THIS
+    contract's call-site view: an abstract list (PMR_N, PMR_AT) constrained by the string clauses) -- loop invariant with the prefix
+    sums OFF of the result lengths: n == OFF(i), every earlier item's block lies below OFF(i), block k holds PMR(item_k) in order."""
+    LI_AT = z3.Function("pmr_arg.item", I, S)          # the items of a list argument
+    LI_N = z3.Int("pmr_arg.len")
+    OFF = z3.Function("pmr_arg.offset", I, I)           # OFF(j): number of recipients the first j items give (prefix sums of PMR_N)
+
+    def off_def(j):
+        return OFF(j) == z3.If(j <= 0, 0, OFF(j - 1) + M.PMR_N(LI_AT(j - 1)))
+
+    def mk_raw(ex, st, name):
+        return [(None, VStr(z3.String(name))),
+                (LI_N >= 0, VSeq(LI_N, lambda k: VStr(LI_AT(k)), "str"))]
+
+    def is_list(v):
+        return isinstance(v, VSeq) or (isinstance(v, VRef) and not isinstance(v, VStr))
+
+    def pair_body(st, el, k, j):
+        nm, ad = addr_fields(st, el(OFF(k) + j))
+        want = M.PMR_AT(LI_AT(k), j)
+        return z3.And(nm == fld("EmailAddress", "name", S)(want), ad == fld("EmailAddress", "address", S)(want))
+
+    def forall2(n, body, tag):
+        k, j = z3.Int("k!" + tag), z3.Int("j!" + tag)
+        return z3.ForAll([k, j], z3.Implies(z3.And(k >= 0, k < n, j >= 0, j < M.PMR_N(LI_AT(k))), body(k, j)))
+
+    def list_only(fn):
+        def g(c):
+            if not is_list(c.args["raw"]):
+                return z3.BoolVal(True)
+            return fn(c)
+        return g
+
+    def str_only(fn):
+        def g(c):
+            if is_list(c.args["raw"]):
+                return z3.BoolVal(True)
+            return fn(c)
+        return g
+
+    def e_list_count(c):
+        n, _el = view(c)
+        return n == OFF(LI_N)
+
+    def e_list_items(c):
+        _n, el = view(c)
+        return forall2(LI_N, lambda k, j: pair_body(c.st, el, k, j), "rl")
+
+    def extended_list(lc):
+        nodes = getattr(lc.ex, "_loop_nodes", [])
+        names = []
+        for sub in ast.walk(nodes[-1]) if nodes else []:
+            if isinstance(sub, ast.Call) and isinstance(sub.func, ast.Attribute) and sub.func.attr == "extend" and isinstance(sub.func.value, ast.Name) \
+                    and sub.func.value.id not in names:
+                names.append(sub.func.value.id)
+        if len(names) != 1:
+            raise M.ShapeUnknown(f"the loop over a list argument extends {names}: expected exactly one list")
+        r = seq_of(lc.st, lc.st.lookup(names[0]), ("obj", "EmailAddress"))
+        if r is None:
+            raise M.ShapeUnknown("extended list is not a list")
+        return r
+
+    def inv_list(lc):
+        n, el = extended_list(lc)
+        i = lc.i
+        k = z3.Int("k!rlo")
+        return M.ConjA([
+            ("count", n == OFF(i)),
+            ("order", z3.ForAll([k], z3.Implies(z3.And(k >= 0, k < i), z3.And(OFF(k) >= 0, OFF(k) + M.PMR_N(LI_AT(k)) <= OFF(i))))),
+            ("items", forall2(i, lambda k_, j_: pair_body(lc.st, el, k_, j_), "rli")),
+        ], defs=[off_def(i), off_def(i + 1), OFF(i) >= 0] if False else [off_def(i), off_def(i + 1)])
+
+    def result_maker(ex, st, ctx):
+        a = ctx.args["raw"]
+        if not isinstance(a, VStr):
+            raise M.ShapeUnknown("_parse_multi_recipients applied to something that is not a str")
+        st.assume(M.PMR_N(a.t) >= 0)
+        return VSeq(M.PMR_N(a.t), lambda k, t=a.t: VExt("EmailAddress", M.PMR_AT(t, k)), ("obj", "EmailAddress"))
+
+    def split_of(st):
+        g = st.ghost.get("re_split_arg")
+        if g is None:
+            raise M.ShapeUnknown("the body did not split anything with re.split")
+        return g
+
+    def view(c):
+        r = seq_of(c.st, c.result, ("obj", "EmailAddress"))
+        if r is None:
+            raise M.ShapeUnknown("result of _parse_multi_recipients is not a list")
+        return r
+
+    def raw_of(c):
+        return c.args["raw"].t
+
+    def e_empty(c):
+        n, _el = view(c)
+        return z3.Implies(z3.Length(raw_of(c)) == 0, n == 0)
+
+    def e_split(c):
+        if not verifying(c, "::_parse_multi_recipients"):
+            return z3.BoolVal(True)
+        raw = raw_of(c)
+        g = c.st.ghost.get("re_split_arg")
+        if g is None:
+            return z3.Length(raw) == 0              # nothing was split: only right for the empty string
+        return z3.And(g[0] == z3.StringVal(RCPT_SEP), g[1] == raw)
+
+    def spec_ps(c):
+        if verifying(c, "::_parse_multi_recipients"):
+            g = c.st.ghost.get("re_split_arg")
+            if g is not None:
+                return g
+        return z3.StringVal(RCPT_SEP), raw_of(c)
+
+    def e_count(c):
+        raw = raw_of(c)
+        P, s = spec_ps(c)
+        n, _el = view(c)
+        return n == z3.If(z3.Length(raw) == 0, 0, M.CNT_PSR(P, s, M.RSPL_N(P, s)))
+
+    def items_body(st, el, P, s):
+        def body(k):
+            part = M.RSPL_AT(P, s, k)
+            nm, ad = addr_fields(st, el(M.CNT_PSR(P, s, k)))
+            return z3.Implies(M.psr_keep(P, s, k), z3.And(nm == M.PSR_NAME(part), ad == M.PSR_ADDR(part)))
+        return body
+
+    def e_items(c):
+        raw = raw_of(c)
+        P, s = spec_ps(c)
+        _n, el = view(c)
+        return z3.Implies(z3.Length(raw) > 0, forall(M.RSPL_N(P, s), items_body(c.st, el, P, s), "k!ri"))
+
+    def inv(lc):
+        if is_list(lc.entry.lookup("raw")):
+            return inv_list(lc)
+        P, s = split_of(lc.st)
+        n, el = built_list(lc, None, ("obj", "EmailAddress"))
+        i = lc.i
+        return M.ConjA([
+            ("count", n == M.CNT_PSR(P, s, i)),
+            ("order", forall(i, lambda k: z3.Implies(M.psr_keep(P, s, k), M.CNT_PSR(P, s, k) < M.CNT_PSR(P, s, i)), "k!ro",
+                             pattern=lambda k: M.CNT_PSR(P, s, k))),
+            ("items", forall(i, items_body(lc.st, el, P, s), "k!rj", pattern=lambda k: M.CNT_PSR(P, s, k))),
+        ], defs=[M.cnt_psr_def(P, s, i), M.cnt_psr_def(P, s, i + 1)])
+
+    def hyp(c):
+        if is_list(c.args["raw"]):
+            return off_def(z3.IntVal(0))
+        raw = raw_of(c)
+        return M.cnt_psr_def(z3.StringVal(RCPT_SEP), raw, z3.IntVal(0))
+
+    c = FnContract(
+        target=f"{MSG}::_parse_multi_recipients",
+        params=[("raw", Maker(mk_raw, desc="str | list[str]"))],
+        hyps=hyp,
+        ensures=[("no-recipients-for-an-empty-string", str_only(e_empty)), ("the-string-itself-is-split-at-semicolons-and-commas", str_only(e_split)),
+                 ("one-entry-per-piece-that-parses-to-a-name-or-an-address", str_only(e_count)),
+                 ("entries-are-the-parsed-pieces-in-order", str_only(e_items)),
+                 ("list:-as-many-entries-as-the-items-give-together", list_only(e_list_count)),
+                 ("list:-the-recipients-of-each-item-in-order,-items-in-order", list_only(e_list_items))],
+        raises=[],
+        result_maker=result_maker,
+        loops={"*": LoopSpec(inv=inv, label="recipients")},
+        note="str: [r for r in map(_parse_single_recipient, re.split('[;,]', raw)) if r and (r.name or r.address)]; list[str]: the "
+             "concatenation of the results of the items, in order.  Call sites in read_msg_format_mail keep the summarised view "
+             "(a deterministic function of the message property, whose form -- str or list -- is not known there)",
+    )
+    c.summary_at_call_sites = True
+    return c
+
+
+def hint_pattern(repo=None):
+    """The pattern constant `_looks_like_html` searches with, read from the REAL source: the module-level `re.compile(<literal>[,
+    re.IGNORECASE])` whose name the function calls `.search` on -> the pattern string as the executor's model writes it."""
+    m = loader.module(MSG, repo) if repo is not None else loader.module(MSG)
+    fn = m.functions.get("_looks_like_html")
+    if fn is None:
+        raise M.ShapeUnknown("_looks_like_html is gone")
+    names = [n.func.value.id for n in ast.walk(fn) if isinstance(n, ast.Call) and isinstance(n.func, ast.Attribute) and n.func.attr == "search"
+             and isinstance(n.func.value, ast.Name)]
+    if len(set(names)) != 1:
+        raise M.ShapeUnknown("not exactly one compiled pattern searched by _looks_like_html")
+    node = m.assigns.get(names[0])
+    if not (isinstance(node, ast.Call) and ast.unparse(node.func) == "re.compile" and node.args and isinstance(node.args[0], ast.Constant)
+            and isinstance(node.args[0].value, str) and not node.keywords):
+        raise M.ShapeUnknown("hint pattern is not re.compile(<str literal>, ...)")
+    flags = [ast.unparse(a) for a in node.args[1:]]
+    if flags not in ([], ["re.IGNORECASE"], ["re.I"]):
+        raise M.ShapeUnknown(f"hint pattern flags {flags}")
+    return names[0], ("(?i)" if flags else "") + node.args[0].value, node.args[0].value, bool(flags)
+
+
+def llh_spec(t):
+    """`_looks_like_html(text)` as specified (msg bodies: which bodies are HTML): a non-empty text is HTML when, left-stripped and
+    lower-cased, it opens with a doctype or mentions <html / <body, or when the module's tag-hint pattern finds a tag in it (what that
+    pattern has to match is the ground obligation `_HTML_HINT_RE/module-invariant`)."""
+    P = z3.StringVal(hint_pattern()[1])
+    low = M.LOWER(M.LSTRIP(t))
+    return z3.And(z3.Length(t) > 0,
+                  z3.Or(z3.PrefixOf(z3.StringVal("<!doctype"), low), z3.Contains(low, z3.StringVal("<html")), z3.Contains(low, z3.StringVal("<body")),
+                        z3.Not(M.RS_NONE(P, t))))
+
+
+def llh_contract():
+    """(round 7) _looks_like_html: VERIFIED on the real body; it used to be a summarised helper (an unspecified deterministic bool).
+    Call sites (read_msg_format_mail) get the specified value, which is a function of the argument, so the former view is implied."""
+    def ret(c):
+        return VBool(llh_spec(c.args["text"].t))
+
+    return FnContract(
+        target=f"{MSG}::_looks_like_html",
+        params=[("text", p_str())],
+        returns=ret,
+        raises=[],
+        note="False for ''; doctype / <html / <body on the left-stripped lower-cased text, else the module's tag-hint pattern (re.search assumed total)",
     )
 
 
@@ -1270,6 +1598,20 @@ def read_msg_contract():
         # body is its text rendering, produced by a helper that is not specified here)
         return z3.Or(z3.And(bh.t == M.EMPTY, bp.t == STRIP(raw)), bh.t == raw)
 
+    def e_body_kind(c):
+        # (round 7) WHICH of the two cases applies is now specified: the body is the HTML body exactly when the VERIFIED
+        # _looks_like_html says so (its contract gives the call site the specified value).  Without that contract (helper renamed /
+        # pattern shape not recognised) the helper is summarised and this clause has nothing to say.
+        if c.ex.reg.get(f"{MSG}::_looks_like_html") is None:
+            return z3.BoolVal(True)
+        bp, bh = f(("body_plain",))(c), f(("body_html",))(c)
+        none, s_ = prop(c, "body")
+        raw = z3.If(z3.Or(none, z3.Length(s_) == 0), M.EMPTY, s_)
+        if not (isinstance(bp, VStr) and isinstance(bh, VStr)):
+            raise M.ShapeUnknown("bodies are not str values")
+        html = llh_spec(raw)
+        return z3.And(z3.Implies(html, bh.t == raw), z3.Implies(z3.Not(html), z3.And(bh.t == M.EMPTY, bp.t == STRIP(raw))))
+
     def e_atts(c):
         tag = helper_tag(c.st, f(("attachments",))(c))
         if len(tag[2]) != 1:
@@ -1286,7 +1628,7 @@ def read_msg_contract():
                  ("from_email-is-the-first-parsed-sender", e_from),
                  ("to_emails-from-the-To-property", e_rcpt("to_emails", "to")), ("to_cc-from-the-Cc-property", e_rcpt("to_cc", "cc")),
                  ("to_bcc-from-the-Bcc-property", e_rcpt("to_bcc", "bcc")),
-                 ("bodies-from-the-Body-property", e_body), ("attachments-from-the-attachment-storages-of-the-same-bytes", e_atts)],
+                 ("bodies-from-the-Body-property", e_body), ("html-body-iff-the-body-looks-like-html", e_body_kind), ("attachments-from-the-attachment-storages-of-the-same-bytes", e_atts)],
         raises=[Raises(FAMILY, sub=True, label="every failure arrives in the ExtractionError family")],
         note="field <- property mapping (dataflow); .msg is outside the RFC 5322 statement: totality is not claimed here",
     )
@@ -1296,6 +1638,17 @@ def contracts(reg):
     M.install(reg)
     out = []
     out.append(psr_contract())
+    try:
+        if pmr_shape_ok():
+            out.append(pmr_contract())
+    except Exception:  # noqa  (never let an exception escape from contracts())
+        pass
+    out.append(ros_contract())
+    try:
+        hint_pattern()
+        out.append(llh_contract())
+    except Exception:  # noqa  (shape of the hint pattern not recognised: the helper stays summarised, the ground obligation reports it)
+        pass
     out.append(read_msg_contract())
     out.extend(router_contracts(reg))
     out.append(eml_contract())
@@ -1444,6 +1797,31 @@ def mime_table_obligations(repo, tier):
     return {"obligations": obls, "functions": []}
 
 
+# What the tag-hint pattern of `_looks_like_html` has to do (from the property: "the plain and HTML bodies"; an Outlook HTML body is a
+# fragment of tags that nearly always carry attributes): an opening tag of the listed block / inline elements counts whether it is
+# closed at once (`<p>`) or followed by white space and attributes (`<p class="MsoNormal">`), in any case; text that merely contains
+# `<`, other elements, and the two characters backslash + `s` after a tag name do not.
+HINT_MUST = ["<p>x</p>", "<p class=\"MsoNormal\">x</p>", "<div style=\"c\">x</div>", "<span\tid=x>y</span>", "<table border=\"1\"><tr><td>1</td></tr></table>",
+             "<td\nclass=a>", "<P CLASS=\"A\">x</P>", "<BR>", "<br />", "text before <div class=\"WordSection1\">x</div>"]
+HINT_MUST_NOT = ["a < b and c > d", "<pre>x</pre>", "<b>bold</b>", "<tdx>", "<paragraph>", "<p\\s", "", "1 <2 p>"]
+
+
+def hint_pattern_obligations(repo, tier):
+    """`_HTML_HINT_RE` (the literal of the real source, compiled here with the real `re`) on the two tables above: the contract of
+    `_looks_like_html` is stated over "the module's hint pattern"; what that pattern matches is decided here."""
+    import re
+    obls = []
+    name, _model, lit, icase = hint_pattern(repo)
+    rx = re.compile(lit, re.IGNORECASE if icase else 0)
+    G = lambda label, ok, why="": obls.append(ground_obligation(f"C16/msg_email_extractor.py::_HTML_HINT_RE/module-invariant#{label}", ok, why,
+                                                                 MSG, kind="module-invariant", backend="ground"))
+    bad = [x for x in HINT_MUST if rx.search(x) is None]
+    G("opening-tags-with-or-without-attributes-are-html", not bad, f"{name} does not find a tag in {bad!r}")
+    bad = [x for x in HINT_MUST_NOT if rx.search(x) is not None]
+    G("text-without-a-listed-opening-tag-is-not-html", not bad, f"{name} finds a tag in {bad!r}")
+    return {"obligations": obls, "functions": []}
+
+
 def _guarded_extra(fn, oid):
     """an EXTRA never crashes the check: an exception inside pack code on a changed tree is an unrecognised shape -> `unknown`"""
     def run(repo, tier):
@@ -1457,7 +1835,9 @@ def _guarded_extra(fn, oid):
 
 EXTRA = [_guarded_extra(pattern_obligations, "C16/mbox_email_extractor.py::MBOX_FROM_PATTERN/module-invariant#pattern-is-a-compiled-bytes-literal"),
          _guarded_extra(frame_obligations, "C16/data_types.py::FileMetadataInterface.populate_from_path/frame#assigns-only-file-metadata-fields"),
-         _guarded_extra(mime_table_obligations, "C16/mime_types.py::MIME_TYPE_MAPPING/module-invariant#keys-are-type/subtype-names")]
+         _guarded_extra(mime_table_obligations, "C16/mime_types.py::MIME_TYPE_MAPPING/module-invariant#keys-are-type/subtype-names"),
+         _guarded_extra(hint_pattern_obligations, "C16/msg_email_extractor.py::_HTML_HINT_RE/module-invariant#opening-tags-with-or-without-attributes-are-html"),
+         _guarded_extra(pmr_coverage_obligations, "C16/msg_email_extractor.py::_parse_multi_recipients/bounded#native-table")]
 REPLAY_UNKNOWN = True      # an obligation the solver leaves unknown is searched natively (replay/C16.py) before it is reported undecided
 
 
@@ -1496,8 +1876,8 @@ TRUSTED = [
     "msg_parser.MsOxMessage properties are functions of the file bytes",
     "re: finditer yields ordered, non-overlapping, non-empty matches inside the data (the pattern itself is checked by ground "
     "obligations on the compiled literal)",
-    "router.get_extractor / mime_types.is_supported_mime_type: verified by the C07 pack (used through the shape of its contract; "
-    "table content enters through the lemmas mime-fallback-routes.*)",
+    "router.get_extractor: verified by the C07 pack (used through the shape of its contract; table content enters through the lemmas "
+    "mime-fallback-routes.*); mime_types.is_supported_mime_type is verified by this pack as well since round 7",
 ]
 ASSUMED_MODELS = [
     "email.message_from_bytes (total)", "email.message.Message.get (str | None, case-insensitive)", "Message.walk() (finite, depth-first order)",
@@ -1506,11 +1886,20 @@ ASSUMED_MODELS = [
     "email.utils.getaddresses / parseaddr (total)", "email.utils.parsedate_to_datetime (ValueError/TypeError when not a date)",
     "datetime.isoformat", "bytes.decode(cs, errors='replace') raises only LookupError, for an unknown codec; 'utf-8' is known",
     "str.encode('utf-8', errors='ignore') total", "bytes.rstrip(b'\\r\\n')", "base64.b64decode (may raise)",
-    "re.Pattern.finditer / Match.start / Match.end; re.search (total)", "io.BytesIO(data) / seek / read / getvalue (content and position)",
+    "re.Pattern.finditer / Match.start / Match.end; re.search / Pattern.search (total)",
+    "re.split / Pattern.split on a constant pattern (total, at least one piece; pieces uninterpreted)",
+    "re.compile(p, re.IGNORECASE) == re.compile('(?i)' + p)",
+    "olefile: ole.openstream([storage, name]) / stream.read() may raise anything, else functions of (file, storage, name) (validated natively "
+    "on a stub by replay check_read_ole_string)", "bytes.decode(cs, errors='ignore') / str.rstrip(<constant chars>) (uninterpreted)", "str.lower / str.lstrip (total, uninterpreted functions of the string)",
+    "io.BytesIO(data) / seek / read / getvalue (content and position)",
     "mailparser.parse_from_bytes and the attribute shapes listed in TRUSTED", "msg_parser.MsOxMessage (may raise)",
     "str.strip (uninterpreted; ''.strip() == '')", "str.join over a symbolic sequence: depends only on separator, length and the elements below the length",
-    "msg_email_extractor._parse_multi_recipients, _extract_msg_attachments, _looks_like_html, _html_to_text: NOT verified, used as "
-    "deterministic functions (dataflow of read_msg_format_mail only)",
+    "msg_email_extractor._extract_msg_attachments, _html_to_text: NOT verified, used as deterministic functions (dataflow of "
+    "read_msg_format_mail only); the verified _read_ole_string is a helper of the unverified _extract_msg_attachments, so its contract "
+    "has no verified caller yet",
+    "msg_email_extractor._parse_multi_recipients at the call sites of read_msg_format_mail: the function is verified for a str and for "
+    "a list[str] argument (round 7), but a MsOxMessage property is an opaque value there (str or list: msg_parser's business), so the "
+    "call sites keep the summarised view -- a deterministic function of the property, which the verified contract implies",
     "FileMetadataInterface.populate_from_path: frame = four file-metadata fields (checked syntactically on the source)",
 ]
 ASSUMPTIONS = [
@@ -1518,8 +1907,10 @@ ASSUMPTIONS = [
     "distinguishes the two except isinstance, which is modelled",
     "PY-RE, PY-STR, PY-EXC / EXC-ANY, PY-GEN, logger calls dropped (PY-LOG)",
     "DT-TYPED: fields of the content dataclasses hold values of their declared types",
-    "CNT_SP / CNT_GA / FIRST_P / FIRST_H are defined by primitive recursion; their definitional equations are supplied as ground "
+    "CNT_SP / CNT_GA / CNT_PSR / FIRST_P / FIRST_H are defined by primitive recursion; their definitional equations are supplied as ground "
     "instances where an invariant is assumed (conservative extension)",
+    "PSR_NONE / PSR_NAME / PSR_ADDR name the result of the verified, deterministic _parse_single_recipient at its call sites (conservative "
+    "extension; constrained only by that contract's ensures clauses)",
     "Message.get returns str for every header (compat32 policy returns email.header.Header for raw 8-bit header bytes: not modelled)",
     "a generator's consumer may stop after any prefix",
 ]
@@ -1527,7 +1918,8 @@ NOT_CLAIMED = [
     "correct decoding of RFC 2047 words, charsets, base64/quoted-printable, header folding, MIME nesting: stdlib email / mailparser "
     "(exercised natively by replay/C16.py against the stdlib generator's ground truth, not proved)",
     "msg: totality (a .msg without Subject / sent date fails as a whole: msg.subject None -> AttributeError in __post_init__, "
-    "parsedate_to_datetime(None) -> TypeError); _parse_multi_recipients, _extract_msg_attachments; reply_to is stored unparsed",
+    "parsedate_to_datetime(None) -> TypeError); _extract_msg_attachments (OLE storages: "
+    "filtered comprehension + filter-map loop over olefile, outside the engine's reach), _html_to_text (C17); reply_to is stored unparsed",
     "mboxrd un-escaping: a body line '>From ' stays quoted in body_plain (mailbox.mbox does the same); boundaries are unaffected",
     "several inline text/plain parts: .mbox keeps the first, .eml (mailparser) joins all with a newline -- the two extractors disagree "
     "(natively: 'first part' vs 'first part\\nsecond part'); single-part non-text message: .mbox decodes it as body_plain, .eml gives ''",
@@ -1535,5 +1927,7 @@ NOT_CLAIMED = [
     "(e.g. report.pdf sent as application/octet-stream): `supported` is read as the is_supported_mime_type flag of the data model",
     "date strings of .eml (UTC, +00:00) and .mbox (original offset) denote the same instant but are not the same string",
 ]
-BOUNDED = ["a regular expression used with re.sub is taken to implement RFC 5322 unfolding when it does so on the table c16_exec.UNFOLD_TABLE "
+BOUNDED = ["_parse_multi_recipients written with comprehensions / generator expressions instead of loops is not verified (summarised as before round 7): "
+           "the native table bounded#native-table is then the only check of its body",
+           "a regular expression used with re.sub is taken to implement RFC 5322 unfolding when it does so on the table c16_exec.UNFOLD_TABLE "
            "(evaluated with the real `re`); otherwise it stays an uninterpreted substitution"]
